@@ -735,3 +735,26 @@ func topFn(f *ssa.Function) *ssa.Function {
 	}
 	return f
 }
+
+type fieldStore struct {
+	f  *types.Var
+	st *ssa.Store
+}
+
+// fieldStores lists the stores into individual fields of a local struct variable.
+func fieldStores(a *ssa.Alloc) []fieldStore {
+	var out []fieldStore
+	for _, r := range *a.Referrers() {
+		fa, ok := r.(*ssa.FieldAddr)
+		if !ok {
+			continue
+		}
+		fv, _ := fieldVarOf(fa)
+		for _, rr := range *fa.Referrers() {
+			if st, ok := rr.(*ssa.Store); ok && st.Addr == ssa.Value(fa) {
+				out = append(out, fieldStore{fv, st})
+			}
+		}
+	}
+	return out
+}
